@@ -85,7 +85,8 @@ def _pad_face_connections(
 
     if isinstance(da, dict):
         isvector = True
-        vectoraxis, da = da.popitem()
+        # read the single entry without emptying the caller's dictionary
+        ((vectoraxis, da),) = da.items()
     else:
         isvector = False
 
@@ -94,7 +95,7 @@ def _pad_face_connections(
         # TODO: We do not need to deal with other components
         # TODO: Need to integrate that choice deeper in the loop\.
         if other_component:
-            _, da_partner = other_component.popitem()
+            ((_, da_partner),) = other_component.items()
         else:
             # TODO: cover with a test.
             raise ValueError(
